@@ -20,7 +20,7 @@ def oracle(d):
 
 
 def run(ctx):
-    return ec.generic(ctx, 'C14', OPTS, n_quick=(32, 50), n_thorough=(128, 250), with_values=False, with_parse=False, oracle=oracle)
+    return ec.generic(ctx, 'C14', OPTS, n_quick=(48, 100), n_thorough=(128, 400), with_values=False, with_parse=False, oracle=oracle)
 
 
 def replay(ctx, payload):
